@@ -1,6 +1,304 @@
 import PppModel.Auto
+import PppModel.Lemmas.V1Accept
+import PppModel.Lemmas.Utf8
+import PppModel.Lemmas.Ipv4Port
+import PppModel.Lemmas.Ipv6Roundtrip
+import PppModel.Props.C18
 
-/-! # C08 (theorems under construction) -/
+/-!
+# C08 — v1 formatting produces canonical lines that parse back to the same addresses
+
+`V1.Addresses.format` is `impl Display for v1::Addresses`.  For **every** address value
+(`UNKNOWN`, any IPv4 pair, any IPv6 pair, any ports; the Lean types `Ip4`, `Ip6`, `UInt16`
+are exactly the value spaces):
+
+* `format_is_line` — the formatted text is a well-formed line of the v1 grammar
+  (`Spec.V1.Line`) denoting that value;
+* `format_length` — it is at most 107 bytes long (in fact at most 104);
+* `format_ascii`, `format_valid_utf8` — it is ASCII, hence text;
+* `format_parses_back` — each of the four text entry points parses it back to the identical
+  value, and the header text reported is the whole formatted line;
+* `format_parses_back_with_trailer` — the same with arbitrary bytes after the line;
+* `format_injective` — distinct address values never share a line;
+* `display_is_header` — a parsed header formats back to exactly the text it was parsed
+  from, which is a prefix of the input.
+-/
 
 namespace C08
+open V1
+
+/-! ## The component round trips -/
+
+theorem dec_roundtrip (p : UInt16) : V1.parsePort (StdInt.dec p.toNat) = .ok p :=
+  (V1.parsePort_iff _ p).mpr rfl
+
+theorem ipv4_roundtrip (a : Ip4) : StdNet.parseIpv4 (StdNet.displayIpv4 a) = some a :=
+  (StdNet.parseIpv4_iff _ a).mpr rfl
+
+theorem ipv6_roundtrip (a : Ip6) : StdNet.parseIpv6 (StdNet.displayIpv6 a) = some a :=
+  StdNet.parseIpv6_displayIpv6 a
+
+/-! ## The formatted text is a line of the grammar -/
+
+theorem displayIpv6_sepFree (a : Ip6) : sepFree (StdNet.displayIpv6 a) := by
+  intro c hc
+  obtain ⟨h1, h2⟩ := StdNet.displayIpv6_charset a c hc
+  cases hs : isSep c with
+  | false => rfl
+  | true =>
+    rcases (isSep_iff c).mp hs with h | h
+    · exact absurd h h1
+    · exact absurd h h2
+
+/-- The text form of an IPv6 address is accepted by the address parser as that address and
+contains no separator. -/
+theorem ip6Model_display (a : Ip6) : ip6Model (StdNet.displayIpv6 a) a :=
+  ⟨StdNet.parseIpv6_displayIpv6 a, displayIpv6_sepFree a⟩
+
+theorem format_is_line (a : V1.Addresses) : Spec.V1.Line V1.ip6Model a.format a := by
+  cases a with
+  | unknown =>
+    exact Spec.V1.Line.unknown [] (Or.inl rfl) (fun c hc => by cases hc)
+  | tcp4 x =>
+    cases x with
+    | mk sa sp da dp =>
+      exact Spec.V1.Line.tcp4 (StdNet.displayIpv4 sa) (StdNet.displayIpv4 da)
+        (StdInt.dec sp.toNat) (StdInt.dec dp.toNat) sa da sp dp
+        ((ipv4Text_iff_display _ _).mpr rfl) ((ipv4Text_iff_display _ _).mpr rfl)
+        ((portText_iff_dec _ _).mpr rfl) ((portText_iff_dec _ _).mpr rfl)
+  | tcp6 x =>
+    cases x with
+    | mk sa sp da dp =>
+      exact Spec.V1.Line.tcp6 (StdNet.displayIpv6 sa) (StdNet.displayIpv6 da)
+        (StdInt.dec sp.toNat) (StdInt.dec dp.toNat) sa da sp dp
+        (ip6Model_display sa) (ip6Model_display da)
+        ((portText_iff_dec _ _).mpr rfl) ((portText_iff_dec _ _).mpr rfl)
+
+/-! ## Length -/
+
+theorem format_length_104 (a : V1.Addresses) : a.format.length ≤ 104 := by
+  cases a with
+  | unknown => decide
+  | tcp4 x =>
+    have h1 := (StdNet.displayIpv4_length x.srcAddr).2
+    have h2 := (StdNet.displayIpv4_length x.dstAddr).2
+    have h3 := StdInt.dec_length_u16 _ x.srcPort.toNat_lt
+    have h4 := StdInt.dec_length_u16 _ x.dstPort.toNat_lt
+    simp only [Addresses.format, PROXY, TCP4, CRLF, List.length_append, List.length_cons,
+      List.length_nil]
+    omega
+  | tcp6 x =>
+    have h1 := StdNet.displayIpv6_length x.srcAddr
+    have h2 := StdNet.displayIpv6_length x.dstAddr
+    have h3 := StdInt.dec_length_u16 _ x.srcPort.toNat_lt
+    have h4 := StdInt.dec_length_u16 _ x.dstPort.toNat_lt
+    simp only [Addresses.format, PROXY, TCP6, CRLF, List.length_append, List.length_cons,
+      List.length_nil]
+    omega
+
+theorem format_length (a : V1.Addresses) : a.format.length ≤ 107 :=
+  Nat.le_trans (format_length_104 a) (by decide)
+
+/-! ## Character set -/
+
+theorem ascii_of_digit : ∀ c : UInt8, (0x30 ≤ c ∧ c ≤ 0x39) → c < 0x80 := by
+  apply forall_uint8; decide +kernel
+
+theorem ascii_of_addrChar : ∀ c : UInt8, StdNet.IsAddrChar c → c < 0x80 := by
+  apply forall_uint8
+  unfold StdNet.IsAddrChar StdNet.IsHexLower
+  decide +kernel
+
+theorem dec_ascii (n : Nat) : ∀ c ∈ StdInt.dec n, c < 0x80 :=
+  fun c hc => ascii_of_digit c (StdInt.dec_digits n c hc)
+
+theorem displayIpv4_ascii (a : Ip4) : ∀ c ∈ StdNet.displayIpv4 a, c < 0x80 := by
+  intro c hc
+  rcases StdNet.displayIpv4_charset a c hc with h | h
+  · exact ascii_of_digit c h
+  · subst h; decide
+
+theorem displayIpv6_ascii (a : Ip6) : ∀ c ∈ StdNet.displayIpv6 a, c < 0x80 :=
+  fun c hc => ascii_of_addrChar c (StdNet.displayIpv6_addrChars a c hc)
+
+/-- "every byte is ASCII" distributes over `++`. -/
+theorem ascii_append {s t : B} (hs : ∀ c ∈ s, c < 0x80) (ht : ∀ c ∈ t, c < 0x80) :
+    ∀ c ∈ s ++ t, c < 0x80 := by
+  intro c hc
+  rcases List.mem_append.mp hc with h | h
+  · exact hs c h
+  · exact ht c h
+
+theorem ascii_PROXY : ∀ c ∈ PROXY, c < 0x80 := by decide
+theorem ascii_TCP4 : ∀ c ∈ TCP4, c < 0x80 := by decide
+theorem ascii_TCP6 : ∀ c ∈ TCP6, c < 0x80 := by decide
+theorem ascii_UNKNOWN : ∀ c ∈ UNKNOWN, c < 0x80 := by decide
+theorem ascii_CRLF : ∀ c ∈ CRLF, c < 0x80 := by decide
+theorem ascii_SP : ∀ c ∈ [SP], c < 0x80 := by decide
+
+theorem format_ascii (a : V1.Addresses) : ∀ c ∈ a.format, c < 0x80 := by
+  cases a with
+  | unknown =>
+    exact ascii_append (ascii_append (ascii_append ascii_PROXY ascii_SP) ascii_UNKNOWN) ascii_CRLF
+  | tcp4 x =>
+    exact ascii_append (ascii_append (ascii_append (ascii_append (ascii_append (ascii_append
+      (ascii_append (ascii_append (ascii_append (ascii_append (ascii_append ascii_PROXY ascii_SP)
+      ascii_TCP4) ascii_SP) (displayIpv4_ascii _)) ascii_SP) (displayIpv4_ascii _)) ascii_SP)
+      (dec_ascii _)) ascii_SP) (dec_ascii _)) ascii_CRLF
+  | tcp6 x =>
+    exact ascii_append (ascii_append (ascii_append (ascii_append (ascii_append (ascii_append
+      (ascii_append (ascii_append (ascii_append (ascii_append (ascii_append ascii_PROXY ascii_SP)
+      ascii_TCP6) ascii_SP) (displayIpv6_ascii _)) ascii_SP) (displayIpv6_ascii _)) ascii_SP)
+      (dec_ascii _)) ascii_SP) (dec_ascii _)) ascii_CRLF
+
+theorem format_valid_utf8 (a : V1.Addresses) : Utf8.valid a.format = true :=
+  Utf8.ascii_valid _ (format_ascii a)
+
+/-! ## Parsing the formatted text -/
+
+/-- The formatted text is its own window: its only CR is the one before the final LF. -/
+theorem format_windowLength (a : V1.Addresses) : windowLength a.format = some a.format.length := by
+  obtain ⟨body, -, hw⟩ := line_shape (format_is_line a)
+  have hcr := (line_window (format_is_line a)).2.1
+  have hlen : 2 ≤ a.format.length := by rw [hw]; simp
+  simp only [windowLength, hcr, CRLF, List.length_cons, List.length_nil]
+  congr 1
+  omega
+
+theorem format_parseHeader (a : V1.Addresses) : parseHeader a.format = .ok ⟨a.format, a⟩ :=
+  parseHeader_ok_of_line (format_length a) (format_is_line a)
+
+theorem format_parseBytes (a : V1.Addresses) : V1.parseBytes a.format = .ok ⟨a.format, a⟩ := by
+  simp only [parseBytes, format_windowLength, List.take_length, format_valid_utf8,
+    format_parseHeader]
+  rfl
+
+theorem format_parseStr (a : V1.Addresses) : V1.parseStr a.format = .ok ⟨a.format, a⟩ := by
+  simp only [parseStr, format_windowLength, List.take_length, Utf8.isCharBoundary_length,
+    format_parseHeader]
+  rfl
+
+/-- **C08.** Every text entry point parses the formatted text back to the identical value,
+and reports the whole formatted line as the header text. -/
+theorem format_parses_back (a : V1.Addresses) :
+    V1.parseBytes a.format = .ok ⟨a.format, a⟩ ∧ V1.parseStr a.format = .ok ⟨a.format, a⟩ ∧
+    V1.fromStrHeader a.format = .ok ⟨a.format, a⟩ ∧ V1.fromStrAddresses a.format = .ok a := by
+  refine ⟨format_parseBytes a, format_parseStr a, ?_, ?_⟩
+  · simp only [fromStrHeader, format_parseStr, Header.toOwned]
+  · simp only [fromStrAddresses, format_parseStr]
+
+theorem format_parses_back_tcp4 (x : IPv4) :
+    V1.parseBytes (V1.Addresses.tcp4 x).format = .ok ⟨(V1.Addresses.tcp4 x).format, .tcp4 x⟩ :=
+  (format_parses_back (.tcp4 x)).1
+
+theorem format_parses_back_tcp6 (x : IPv6) :
+    V1.parseBytes (V1.Addresses.tcp6 x).format = .ok ⟨(V1.Addresses.tcp6 x).format, .tcp6 x⟩ :=
+  (format_parses_back (.tcp6 x)).1
+
+theorem format_parses_back_unknown :
+    V1.parseBytes V1.Addresses.unknown.format = .ok ⟨V1.Addresses.unknown.format, .unknown⟩ :=
+  (format_parses_back .unknown).1
+
+/-- Whatever follows the formatted line (payload, another header, garbage), the byte entry
+point returns the same header. -/
+theorem format_parses_back_with_trailer (a : V1.Addresses) (t : B) :
+    V1.parseBytes (a.format ++ t) = .ok ⟨a.format, a⟩ := by
+  obtain ⟨body, -, hw⟩ := line_shape (format_is_line a)
+  have hcr := (line_window (format_is_line a)).2.1
+  have hlen : 2 ≤ a.format.length := by rw [hw]; simp
+  rw [C18.frozen_stable_bytes a.format t _ hcr (by omega)]
+  exact format_parseBytes a
+
+/-- The same through `TryFrom<&str>`, whose argument is text: the trailer is valid UTF-8
+(a `&str` cannot continue with a stray continuation byte). -/
+theorem format_parses_back_with_trailer_str (a : V1.Addresses) (t : B) (ht : Utf8.valid t = true) :
+    V1.parseStr (a.format ++ t) = .ok ⟨a.format, a⟩ := by
+  obtain ⟨body, -, hw⟩ := line_shape (format_is_line a)
+  have hcr := (line_window (format_is_line a)).2.1
+  have hlen : 2 ≤ a.format.length := by rw [hw]; simp
+  obtain ⟨h1, h2⟩ := window_append_frozen t hcr (show a.format.length - 2 + 1 < a.format.length by omega)
+  have e : a.format.length - 2 + 2 = a.format.length := by omega
+  rw [e] at h1 h2
+  have hb : Utf8.isCharBoundary (a.format ++ t) a.format.length = true := by
+    have hv : Utf8.valid (a.format ++ t) = true := Utf8.valid_append _ _ (format_valid_utf8 a) ht
+    have hx : a.format ++ t = (body ++ [CR]) ++ LF :: t := by rw [hw]; simp
+    have hl : a.format.length = (body ++ [CR]).length + 1 := by rw [hw]; simp
+    rw [hx] at hv
+    rw [hl, hx]
+    exact (Utf8.boundary_after_ascii (body ++ [CR]) LF t (by decide) hv).1
+  simp only [parseStr, h1, h2, hb, List.take_length, format_parseHeader]
+  rfl
+
+/-! ## Distinct values never share a line -/
+
+theorem format_injective (a b : V1.Addresses) (h : a.format = b.format) : a = b := by
+  have ha := (format_parses_back a).2.2.2
+  have hb := (format_parses_back b).2.2.2
+  rw [h, hb] at ha
+  cases ha
+  rfl
+
+/-! ## A parsed header displays as the text it was parsed from -/
+
+/-- `parse_header` stores the text it was given. -/
+theorem parseHeader_header {w : B} {h : Header} (hok : parseHeader w = .ok h) : h.header = w := by
+  obtain ⟨-, proto, rest, -, hcase⟩ := parseHeader_ok_inv hok
+  rcases hcase with ⟨-, a, b, p, q, rest', -, hfin⟩ | ⟨-, a, b, p, q, rest', -, hfin⟩ | ⟨-, -, rfl⟩
+  · rw [(finish_ok hfin).2.2]
+  · rw [(finish_ok hfin).2.2]
+  · rfl
+
+theorem display_is_header {x : B} {h : V1.Header} (hp : V1.parseBytes x = .ok h) :
+    h.display = h.header ∧ h.header <+: x := by
+  refine ⟨rfl, ?_⟩
+  unfold parseBytes at hp
+  split at hp
+  · cases hp
+  · rename_i n hn
+    simp only at hp
+    split at hp
+    · cases hp
+    · split at hp
+      · cases hp
+      · rename_i h' hh
+        cases hp
+        rw [parseHeader_header hh]
+        exact List.take_prefix n x
+
+/-- The same through `TryFrom<&str>`. -/
+theorem display_is_header_str {x : B} {h : V1.Header} (hp : V1.parseStr x = .ok h) :
+    h.display = h.header ∧ h.header <+: x := by
+  refine ⟨rfl, ?_⟩
+  unfold parseStr at hp
+  split at hp
+  · cases hp
+  · rename_i n hn
+    split at hp
+    · cases hp
+    · rw [parseHeader_header hp]
+      exact List.take_prefix n x
+
+/-- Formatting the addresses of a parsed canonical line and displaying the parsed header
+agree: for a formatted line the stored text is the formatted text. -/
+theorem display_of_format (a : V1.Addresses) {h : V1.Header} (hp : V1.parseBytes a.format = .ok h) :
+    h.display = a.format ∧ h.addresses = a := by
+  rw [format_parseBytes a] at hp
+  cases hp
+  exact ⟨rfl, rfl⟩
+
+/-! ## Non-vacuity -/
+
+/-- A concrete TCP6 value with different source and destination. -/
+example :=
+  format_parses_back (.tcp6
+    { srcAddr := FixB.ofList 16 [0x20, 0x01, 0x0d, 0xb8, 0, 0, 0, 0, 0, 0, 0, 0, 0, 0, 0, 1],
+      srcPort := 443,
+      dstAddr := FixB.ofList 16 [0, 0, 0, 0, 0, 0, 0, 0, 0, 0, 0xff, 0xff, 192, 0, 2, 7],
+      dstPort := 65535 })
+
+example : V1.parseBytes V1.Addresses.unknown.format
+    = .ok ⟨[0x50, 0x52, 0x4F, 0x58, 0x59, 0x20, 0x55, 0x4E, 0x4B, 0x4E, 0x4F, 0x57, 0x4E, 0x0D, 0x0A],
+      .unknown⟩ :=
+  format_parses_back_unknown
+
 end C08
